@@ -26,8 +26,9 @@
     `knownUnfetched`, `knownValueOffences`; each is replayed on the real pair by the harness
     (PENDING_FINDINGS).  The full statements are kept as `C15_*_full : Prop`, refuted by
     `C15_*_counterexample`, and the `_partial` theorems say that these are the ONLY exceptions.
-  * `writerOnlyOffences`: combinations girwriter.py could write but no scanner path produces
-    (fields of an interface); the harness checks on every produced GIR that they do not occur.
+  * `writerOnlyOffences`, `writerOnlyValueOffences`: combinations girwriter.py could write but no scanner
+    path produces (fields of an interface; transfer-ownership="container" on an instance parameter); the
+    harness checks on every produced GIR that they do not occur.
   * C15_passthrough_balanced, hypothesis `hrow`: the table row taking the element, if it runs
     introspectable_prelude, does not name PASSTHROUGH as the state of the introspectable element (no
     start_* function of girparser.c does; C15_no_prelude_to_passthrough checks it on the whole table).
@@ -201,13 +202,18 @@ def knownUnfetched : List (String × String × String) :=
 def elseBranchByDesign : List (String × String × String × String) :=
   [("glib:signal", "start_glib_signal", "when", "cleanup")]
 
-/-- The offences of the UNCHANGED tree:
-    * when="must-collect" (ast.SIGNAL_MUST_COLLECT, written verbatim from the runtime dump) silently becomes RUN_CLEANUP;
-    * transfer-ownership="container" on an <instance-parameter> is an error for start_instance_parameter
-      (only "none"/"full"); the writer passes any (transfer …) annotation of the instance parameter through. -/
+/-- The offence of the UNCHANGED tree:
+    * when="must-collect" (ast.SIGNAL_MUST_COLLECT, written verbatim from the runtime dump) silently becomes RUN_CLEANUP. -/
 def knownValueOffences : List (String × String × String × String) :=
-  [("glib:signal", "start_glib_signal", "when", "must-collect"),
-   ("instance-parameter", "start_instance_parameter", "transfer-ownership", "container")]
+  [("glib:signal", "start_glib_signal", "when", "must-collect")]
+
+/-- What girwriter.py could write but the scanner never produces: transfer-ownership="container" on an
+    <instance-parameter> (an error for start_instance_parameter, which knows "none"/"full" only).  The writer
+    passes `parameter.transfer` through, but MainTransformer._apply_transfer_annotation accepts
+    (transfer container) only for array / list / map typed nodes, which an instance parameter never is
+    (checked on every GIR of the run). -/
+def writerOnlyValueOffences : List (String × String × String × String) :=
+  [("instance-parameter", "start_instance_parameter", "transfer-ownership", "container")]
 
 /-! the same lists, number-coded (regenerate with `#eval (contexts.map codeVisit)` etc.; `C15_constants_coded` checks them) -/
 
@@ -288,9 +294,10 @@ def knownUnfetchedN : List (Nat × Nat × Nat) := [(401757371000178, 11495963421
 def elseBranchByDesignN : List (Nat × Nat × Nat × Nat) :=
   [(434516328808026195815719276, 126399454549389185839645904802390289047916, 6298297710, 100042799414408560)]
 def knownValueOffencesN : List (Nat × Nat × Nat × Nat) :=
-  [(434516328808026195815719276, 126399454549389185839645904802390289047916, 6298297710, 113104018120924284523360117620),
-  (31485119747228842716540428525926096580142450, 9108040582535409498726417970461977819827324383652908131698,
-  32444692065052634086064121267185753780676976, 6556623629314268489074)]
+  [(434516328808026195815719276, 126399454549389185839645904802390289047916, 6298297710, 113104018120924284523360117620)]
+def writerOnlyValueOffencesN : List (Nat × Nat × Nat × Nat) :=
+  [(31485119747228842716540428525926096580142450, 9108040582535409498726417970461977819827324383652908131698,
+    32444692065052634086064121267185753780676976, 6556623629314268489074)]
 
 /-- all of them, in the order the walk meets them -/
 def allOffences : List (Offence String) := [
@@ -315,7 +322,8 @@ theorem C15_constants_coded :
     ∧ handlersN = handlers.map code2
     ∧ ignoredAttrsN = ignoredAttrs.map code ∧ ignoredPairsN = ignoredPairs.map code2
     ∧ knownUnfetchedN = knownUnfetched.map code3
-    ∧ elseBranchByDesignN = elseBranchByDesign.map code4 ∧ knownValueOffencesN = knownValueOffences.map code4 := by
+    ∧ elseBranchByDesignN = elseBranchByDesign.map code4 ∧ knownValueOffencesN = knownValueOffences.map code4
+    ∧ writerOnlyValueOffencesN = writerOnlyValueOffences.map code4 := by
   decide +kernel
 
 /-- the coding of the generated tables, pinned on the first entry of each (the whole tables: `tablesCoded`,
@@ -412,8 +420,8 @@ def C15_values_full : Prop := offValuesNotByDesign = []
 /-- Every enumerated attribute value GIRWriter can produce (string constants in girwriter.py and the
     PARAM_TRANSFER_*/PARAM_DIRECTION_*/PARAM_SCOPE_*/SIGNAL_* constants of ast.py, minus what an enclosing
     `!=` test excludes) is one of the literals the handling start_* function compares that attribute with —
-    no silent default — EXCEPT exactly the listed values. -/
-theorem C15_values_partial : offValuesNotByDesign = knownValueOffencesN := by
+    no silent default — EXCEPT exactly the listed value, and the one no scanner path produces. -/
+theorem C15_values_partial : offValuesNotByDesign = knownValueOffencesN ++ writerOnlyValueOffencesN := by
   decide +kernel
 
 theorem C15_values_counterexample : ¬ C15_values_full := by
